@@ -14,9 +14,9 @@ PROPERTY CountersMonotone
 """
 STEP_TEXT = {'PUSHNAT': 'PUSH nat 7', 'PUSHOPT': 'PUSH (option nat) (Some 1)', 'PUSHNONE': 'PUSH (option nat) None', 'PUSHSTR': 'PUSH string "k"', 'EMPTYBM': 'EMPTY_BIG_MAP string nat', 'UPDATE': 'UPDATE',
              'BEGIN': 'BEGIN Unit {}', 'CDR': 'CDR', 'NILOP': 'NIL operation', 'PAIR': 'PAIR', 'COMMIT': 'COMMIT', 'DROP': 'DROP', 'DROPALL': 'DROP_ALL',
-             'STORAGE': 'storage (big_map string nat)', 'PARAMBM': 'parameter (big_map string nat)', 'BEGINPTR': 'BEGIN 5 {}', 'SAPLING': 'SAPLING_EMPTY_STATE 8'}
+             'STORAGE': 'storage (big_map string nat)', 'PARAMBM': 'parameter (big_map string nat)', 'BEGINPTR': 'BEGIN 5 {}', 'SAPLING': 'SAPLING_EMPTY_STATE 8', 'LISTBM': 'EMPTY_BIG_MAP string nat ; NIL (big_map string nat) ; SWAP ; CONS'}
 STEPS = {'push': ['PUSHNAT'], 'newbm': ['EMPTYBM'], 'newbm2': ['EMPTYBM', 'PUSHOPT', 'PUSHSTR', 'UPDATE'], 'upd': ['PUSHOPT', 'PUSHSTR', 'UPDATE'], 'del': ['PUSHNONE', 'PUSHSTR', 'UPDATE'], 'begin': ['BEGIN'],
-         'commit': ['CDR', 'PUSHOPT', 'PUSHSTR', 'UPDATE', 'NILOP', 'PAIR', 'COMMIT'], 'drop': ['DROP'], 'dropall': ['DROPALL'], 'storage': ['STORAGE'], 'parambm': ['PARAMBM'], 'beginptr': ['BEGINPTR'], 'sap': ['SAPLING']}
+         'commit': ['CDR', 'PUSHOPT', 'PUSHSTR', 'UPDATE', 'NILOP', 'PAIR', 'COMMIT'], 'drop': ['DROP'], 'dropall': ['DROPALL'], 'storage': ['STORAGE'], 'parambm': ['PARAMBM'], 'beginptr': ['BEGINPTR'], 'sap': ['SAPLING'], 'lbm': ['LISTBM']}
 
 
 # how a failing cell fails: a plain FAILWITH, a FAILWITH inside a DIP body (the interpreter hides items while the body runs),
@@ -47,6 +47,8 @@ def item_abs(item):
     prim = item.prim
     if prim == 'big_map':
         return ('bm', item.ptr)
+    if prim == 'list' and item.items and getattr(item.items[0], 'prim', None) == 'big_map':
+        return ('lst', item.items[0].ptr)
     if prim == 'pair':
         a, b = item.items
         if b.prim == 'big_map' and a.prim in ('unit', 'big_map'):
@@ -182,7 +184,7 @@ def run(ctx):
                 'agree, failing cells must change nothing, and the final state must equal the model; non-trivial = session has a failing cell')
     ctx.assumptions = ['stack items are abstracted to their kind and big_map identifier', 'sessions start with parameter unit / storage (big_map string nat) declared']
     n, f = (3, 2) if ctx.quick else (4, 2)
-    keep = 4 if ctx.quick else 5      # sessions of the maximal length are sampled 1/keep (seeded); shorter ones are all replayed
+    keep = 7 if ctx.quick else 6      # sessions of the maximal length are sampled 1/keep (seeded); shorter ones are all replayed
     r = ctx.tlc('Repl', CFG % (n, f), dump=True, timeout=1500, coverage=True)
     ctx.require_no_violation(r, 'Repl')
     ctx.require_coverage(r, ['Cell'])
@@ -227,6 +229,6 @@ META = {
              'enumerates every session up to the bound with failures at every chosen position and checks that the state always equals the replay of the surviving cells. Every '
              'session is run in pytezos twice (with and without its failing cells) and compared after every surviving cell, and against the model at the end.'),
     'design_ref': 'DESIGN.md section 5 C22, A.4',
-    'note': 'Trusted: abstraction of stack items (C22.py item_abs), cell texts. Bounds: 13 cell kinds (incl. a sapling state), 7 failure styles (incl. an unimplemented primitive), 3 (4) cells, at most 2 failing cells, failure positions {first, middle, last}, stack <= 3; sessions of the maximal length are replayed as a seeded 1/4 (1/5) sample, shorter ones exhaustively.',
+    'note': 'Trusted: abstraction of stack items (C22.py item_abs), cell texts. Bounds: 13 cell kinds (incl. a sapling state), 7 failure styles (incl. an unimplemented primitive), 3 (4) cells, at most 2 failing cells, failure positions {first, middle, last}, stack <= 3; sessions of the maximal length are replayed as a seeded 1/7 (1/6) sample, shorter ones exhaustively.',
     'technique': 'TLA+ session model with rollback action property, TLC exhaustive; differential replay of sessions with/without failing cells in the real Interpreter + comparison with the model',
 }
